@@ -7,6 +7,9 @@
  * the original is not assigned.  Component equality is NOT claimed: spif_url_dup re-parses the text, so
  * components changed through the property setters since the last unparse are not copied
  * (finding C05-url-dup-stale).
+ * (When findings/proposed/C14_url_dup_stale_components.diff lands, the replace list becomes
+ *  spif_str_init_from_ptr, spif_obj_set_class, spif_str_dup - contracts are in contracts/url.h; DFCC aborts on
+ *  replace entries for functions the enforced function does not call, so they cannot be listed in advance.)
  * url_comp: the texts are compared by spif_str_comp; the order laws (antisymmetry, transitivity) are
  * those of the str class (agent str, C05 str units) - here: NULL ordering and reflexivity.
  */
